@@ -251,7 +251,30 @@ func mutateBinary(rt *rapid.T, valid []byte) (out []byte, desc string, mustRejec
 	}
 	h := hs[rapid.IntRange(0, len(hs)-1).Draw(rt, "item")]
 	cur := getLen(b, h.off)
-	switch m := rapid.IntRange(0, 11).Draw(rt, "mutation"); m {
+	switch m := rapid.IntRange(0, 12).Draw(rt, "mutation"); m {
+	case 12: // a well-formed document in which one Integer / Long Integer / Enumeration / Interval carries an extreme value
+		// (counts, sizes, indexes and lengths travel as integers: a decoder that uses one as an allocation hint, an index or a
+		// loop bound must not trust it); integers named Batch Count first
+		var ints, counts []int
+		for i, k := range hs {
+			if t := b[k.off+3]; (t == 2 || t == 3 || t == 5 || t == 10) && k.off+16 <= len(b) {
+				ints = append(ints, i)
+				if b[k.off] == 0x42 && b[k.off+1] == 0x00 && b[k.off+2] == 0x0D {
+					counts = append(counts, i)
+				}
+			}
+		}
+		if len(ints) > 0 {
+			pick := ints[rapid.IntRange(0, len(ints)-1).Draw(rt, "intitem")]
+			if len(counts) > 0 && rapid.Bool().Draw(rt, "batchcount") {
+				pick = counts[0]
+			}
+			k := hs[pick]
+			v := rapid.SampledFrom([]uint32{0xFFFFFFFF, 0x80000000, 0x7FFFFFFF, 0xFFFFFF00, 0x00010000, 0x00000041, 0, 0x40000000}).Draw(rt, "extreme")
+			b[k.off+8], b[k.off+9], b[k.off+10], b[k.off+11] = byte(v>>24), byte(v>>16), byte(v>>8), byte(v)
+			return b, fmt.Sprintf("integer-extreme=%08X@%d", v, k.off), false
+		}
+		fallthrough
 	case 0: // length off by a little
 		d := rapid.SampledFrom([]int64{-8, -7, -1, 1, 7, 8, 9, 16}).Draw(rt, "delta")
 		nl := int64(cur) + d
